@@ -2,13 +2,14 @@ package main
 
 import (
 	"fmt"
+	"golang.org/x/tools/go/ssa"
 	"strings"
 )
 
 func init() {
 	register(&propDef{
-		ID: "C20", Level: "other", Run: runC20,
-		Explanation: "THIN: only the second sentence of the property is decided. On both break paths of SyncState the release count handed back is the table's full player count after the break succeeded, the table broken is the syncing one, and no players are handed to it; ReleasePlayers appends its whole argument to the waiting queue on every path and, unless the competition is pending, drains the queue, so every released player is queued for another table. Convergence of repeated sweeps (no oscillation, bounded number of sweeps) is a liveness property of a numeric fixed point and is NOT decided.",
+		ID: "C20", Level: "other", Run: withShared(runC20, share{"C09", runC09, ruleIs("counter-lockstep", "refusal")}),
+		Explanation: "THIN. Of the first sentence (rebalancing settles) only structural necessary conditions are decided: the level a low table is topped up to, the level above which a table has a surplus and the level at which releasing stops use one rounding of the water level (otherwise tables are filled to one level and drained towards another for ever); the stop level is computed by one full pass over the tables in which a table is either counted under PlayerCount <= level or has its own player count taken off the total. The second sentence is decided in shape: on every break path of SyncState the table broken is the syncing one, the path carries the test that more tables exist than the players need, the release count handed back is the table's full player count after the break succeeded, and no players are handed to it; ReleasePlayers appends its whole argument to the waiting queue on every path and, unless the competition is pending, drains the queue. Convergence of repeated sweeps (no oscillation, bounded number of sweeps) is a liveness property of a numeric fixed point and is NOT decided.",
 		Trusted:     commonTrusted,
 		Assumptions: []string{"tables carry out the release they are told (the property's premise)"},
 		NotCovered:  "convergence within a bounded number of sweeps for every sync order; absence of oscillation",
@@ -50,10 +51,31 @@ func runC20(c *Ctx) {
 				continue
 			}
 			n++
+			// a table is broken only while more tables exist than the players need: breaking the last
+			// table (or one that is still needed) leaves its players queued with nowhere to go
+			spare := hasCond(ps, func(v *Val) bool {
+				a, ok := ltForm(v)
+				if !ok || a.C != 0 || len(a.T) != 2 {
+					return false
+				}
+				tc, need := false, false
+				for t, co := range a.T {
+					if strings.HasSuffix(t, ".tableCount") && co == -1 {
+						tc = true
+					}
+					if strings.Contains(t, "math.Ceil(") && co == 1 {
+						need = true
+					}
+				}
+				return tc && need
+			})
+			if !spare {
+				bad = append(bad, "a table is broken on a path that does not test that more tables exist than are needed: ["+ps.CondString()+"]")
+			}
 			if brk[0].Args[1].String() != tid {
 				bad = append(bad, "the table broken is not the syncing table")
 			}
-			want := affTerm(T + ".PlayerCount").add(affTerm(out), -1)
+			want := affTerm(T+".PlayerCount").add(affTerm(out), -1)
 			if !ps.Ret[0].asAff().equal(want) {
 				bad = append(bad, "a broken table is told to release "+ps.Ret[0].String()+", not all of its players")
 			}
@@ -148,6 +170,108 @@ func runC20(c *Ctx) {
 		c.check(okT, "targets-agree", fnKey(sync), p.FnPos(sync), fmt.Sprintf("top-up target, surplus threshold and release stop level all use %v of the water level", tu), fmt.Sprintf("the balancing targets disagree: top-up %v, surplus %v, stop %v — tables are filled to one level and drained towards another", tu, su, st))
 	}
 
+	// ---- stop-level-shape: the level at which releasing stops is "players on the tables at or below
+	// the water level, divided by the number of those tables": one pass over all tables, a table at
+	// or below the level is counted, any other table's own player count is taken off the total
+	{
+		ra := resolveRegAnchors(p)
+		s := regSumm(p, 0)
+		s.HelperInline = ra.helperFilter(p, sync)
+		paths, _ := s.Function(sync)
+		var lvl *ssa.Function
+		for _, ps := range paths {
+			for _, e := range ps.Events {
+				if e.Kind != "loop" {
+					continue
+				}
+				body, _ := s.LoopBody(e.InFn, e.Loop)
+				for _, bp := range body {
+					for _, e2 := range bp.Events {
+						if e2.Kind == "call" && e2.Fn != nil && e2.Fn.Pkg == sync.Pkg && e2.Fn.Signature.Results().Len() == 1 && typeShort(e2.Fn.Signature.Results().At(0).Type()) == "float64" {
+							lvl = e2.Fn
+						}
+					}
+				}
+			}
+		}
+		if lvl == nil {
+			c.undecided("stop-level-shape", "stop-level", "-", "the function giving the level at which releasing stops was not resolved")
+		} else {
+			c.touch(fnKey(lvl))
+			ls := regSumm(p, 0)
+			var bad []string
+			loops := ls.loops(lvl)
+			if len(loops) != 1 {
+				bad = append(bad, fmt.Sprintf("%d loops, expected one pass over the tables", len(loops)))
+			} else {
+				l := loops[0]
+				ri := analyseRange(l)
+				if ri.Kind != "map" || !ri.Full || len(l.Exits) != 1 || !loadsField(ri.Coll, "regulator.regulator.tables") {
+					bad = append(bad, "the pass does not cover every table")
+				}
+				body, _ := ls.LoopBody(lvl, l)
+				nLow, nHigh := 0, 0
+				for _, bp := range body {
+					if bp.End != "continue" {
+						bad = append(bad, "the pass over the tables can stop early")
+						continue
+					}
+					var inc, dec []string
+					keep := 0
+					for k, v := range bp.Store {
+						if !strings.HasPrefix(k, "backedge:") {
+							continue
+						}
+						a := v.asAff()
+						self := "iter:" + lvl.Name() + "." + strings.TrimPrefix(k, "backedge:")
+						d := a.add(affTerm(self), -1)
+						switch {
+						case d.isZero():
+							keep++
+						case d.isConst() && d.C == 1:
+							inc = append(inc, k)
+						default:
+							dec = append(dec, d.String())
+						}
+					}
+					switch {
+					case len(inc) == 1 && len(dec) == 0:
+						nLow++
+						// counted: the table is at or below the level
+						if !hasCond(bp, func(v *Val) bool {
+							a, ok := ltForm(v)
+							if !ok {
+								return false
+							}
+							pc := false
+							for t, co := range a.T {
+								if strings.HasSuffix(t, ".PlayerCount") && strings.HasPrefix(t, "elem@") && co == 1 {
+									pc = true
+								}
+							}
+							return pc && a.C == -1
+						}) {
+							bad = append(bad, "a table is counted as low without the test PlayerCount <= level: ["+bp.CondString()+"]")
+						}
+					case len(inc) == 0 && len(dec) == 1:
+						nHigh++
+						if !(strings.HasPrefix(dec[0], "-elem@") && strings.HasSuffix(dec[0], ".PlayerCount")) {
+							bad = append(bad, "a table above the level takes "+dec[0]+" off the total, expected minus its own player count")
+						}
+					case len(inc) == 0 && len(dec) == 0:
+						bad = append(bad, "a table is neither counted nor taken off the total")
+					default:
+						bad = append(bad, "a table is both counted and taken off the total")
+					}
+				}
+				if nLow == 0 || nHigh == 0 {
+					bad = append(bad, "the pass does not distinguish tables at or below the level from the others")
+				}
+			}
+			c.check(len(bad) == 0, "stop-level-shape", fnKey(lvl), p.FnPos(lvl), "every table is either counted (PlayerCount <= level) or has its own player count taken off the total", "the level at which releasing stops is computed wrongly: releases may never stop", uniq(bad, 3)...)
+		}
+	}
+
 	// ---- released-are-queued
 	{
 		c.touch(fnKey(rel))
@@ -165,7 +289,9 @@ func runC20(c *Ctx) {
 				}
 				bad = append(bad, "released players are not all appended to the waiting queue: "+got)
 			}
-			pend := hasCond(ps, func(v *Val) bool { return v.K == KAtom && v.At.Op == "eq" && !v.Neg && strings.HasPrefix(v.At.A.String(), "recv.status") })
+			pend := hasCond(ps, func(v *Val) bool {
+				return v.K == KAtom && v.At.Op == "eq" && !v.Neg && strings.HasPrefix(v.At.A.String(), "recv.status")
+			})
 			if !pend {
 				if ra := resolveRegAnchors(p); ra.drainer == nil || len(callsTo(ps, ra.drainer)) == 0 {
 					bad = append(bad, "released players are queued but the queue is not drained although the competition is running")
